@@ -87,6 +87,9 @@ Definition has_repr (n : Z) (x : node) : bool := nrepr x =? n.
 Definition mem (n : Z) (l : list Z) : bool := existsb (Z.eqb n) l.
 Definition del (n : Z) (l : list Z) : list Z := filter (fun x => negb (x =? n)) l.
 
+(* Go's int (64 bits, two's complement): the value an arithmetic result wraps to *)
+Definition wrap64 (z : Z) : Z := (z + 9223372036854775808) mod 18446744073709551616 - 9223372036854775808.
+
 Section WithHash.
 (* vh n i = hashFunc([]byte(repr + strconv.Itoa(i))) for the node with repr id n *)
 Variable vh : Z -> Z -> Z.
@@ -136,7 +139,8 @@ Definition step (s : state) (o : op) : state :=
   match o with
   | OAdd x => add_with_replicas x R s
   | OAddR x r => add_with_replicas x r s
-  | OAddW x w => add_with_replicas x (Z.quot (R * w) 100) s   (* Go integer division truncates *)
+  | OAddW x w => add_with_replicas x (Z.quot (wrap64 (R * w)) 100) s
+      (* h.replicas * weight / TopWeight on Go's 64-bit int: the product wraps, the division truncates *)
   | ORemove x => remove (nrepr x) s
   end.
 
